@@ -11,8 +11,7 @@ def run(rep, tier, seed, rng):
     # --- inventory of unordered containers (regenerated from /repo's sources on every run)
     inv = {x["line"]: x["class"] for x in json.load(open(os.path.join(core.VERIF, "corpus", "unordered_inventory.json")))}
     now = inventory.scan(core.REPO)
-    new = [l for l in now if l not in inv]
-    gone = [l for l in inv if l not in now]
+    new, gone = inventory.compare(list(inv), now)      # on normalised text: renaming a variable or field is not a change
     laze = core.build_impl(); driver = core.build_model()
     nproj = 48 if tier == "quick" else 400
     threads = [1, 2, 5, 16] if tier == "quick" else [1, 2, 3, 5, 8, 16]
@@ -54,8 +53,8 @@ def run(rep, tier, seed, rng):
             ndis += 1
             rep.violation("model and implementation disagree: " + "; ".join(b["dis"])[:400], gen_common.replay_data(b),
                           found_input=False)
-    if new or gone:
-        rep.violation("the inventory of unordered containers no longer matches the sources (new: %d, gone: %d): the model has no iteration-order argument for a new site"
+    if new:
+        rep.violation("unordered containers in the sources that the reviewed inventory does not list (new: %d, gone: %d): the model has no iteration-order argument for a new site"
                       % (len(new), len(gone)), dict(new=new[:20], gone=gone[:20], inventory="corpus/unordered_inventory.json"), found_input=False)
     rep.cov.update(evaluations=nproj + nruns, distinct_nontrivial=len(distinct),
                    rule="random projects (1/2 from the maps-focused generator: multi-key if-then maps, multi-key optional-source maps, multi-key export maps, several -D; "
@@ -65,4 +64,4 @@ def run(rep, tier, seed, rng):
                    samples=[dict(cli=cases[0][1], threads=threads)], launches=nruns, inventory_lines=len(now), inventory_new=len(new), inventory_gone=len(gone),
                    disagreements=ndis)
     rep.assumptions.append("real rayon schedules and SipHash seeds are sampled, not enumerated; rayon's indexed collect preserving order is a library guarantee")
-    rep.assumptions.append("the inventory is line-based: a reformatted line mentioning HashMap/HashSet also breaks the tie (reported as no-failing-input-found)")
+    rep.assumptions.append("the inventory is line-based on normalised text (variable/field names blanked): a re-wrapped line or another method on a HashMap/HashSet still breaks the tie (reported as no-failing-input-found); a removed site does not")
